@@ -111,7 +111,17 @@ class Check:
         self.analysed.add(construct)
 
     def bad(self, rule, construct, detail, node=None, input=None, stmt=None, aux=False):
-        self.obs.append(
+        ob = self._bad(rule, construct, detail, node, input, stmt, aux)
+        for old in self.obs:
+            if old.status == VIOLATION and old.key == ob.key:
+                if input is not None and old.input != input:
+                    old.input = "%s; %s" % (old.input, input) if old.input is not None else input
+                return
+        self.obs.append(ob)
+        self.analysed.add(construct)
+
+    def _bad(self, rule, construct, detail, node=None, input=None, stmt=None, aux=False):
+        return (
             Ob(
                 rule,
                 construct,
@@ -123,7 +133,6 @@ class Check:
                 aux,
             )
         )
-        self.analysed.add(construct)
 
     def undecided(self, rule, construct, detail, node=None, aux=False):
         status = SKIPPED if aux else UNDECIDED
